@@ -1563,6 +1563,26 @@ class SymSeq:
         self.e = z3.Concat(z3.SubSeq(self.e, 0, ei), z3.Unit(as_z3_int(v)),
                            z3.SubSeq(self.e, ei + 1, n - ei - 1))
 
+    def __delitem__(self, i):
+        assert self.kind in ("list", "bytearray")
+        n = z3.Length(self.e)
+        if isinstance(i, slice):
+            if i.step is not None:
+                raise Undecided("del with a slice step on symbolic sequence")
+
+            def norm(x, dflt):
+                if x is None:
+                    return dflt
+                ex = as_z3_int(x)
+                ex = z3.If(ex < 0, ex + n, ex)
+                return z3.If(ex < 0, z3.IntVal(0), z3.If(ex > n, n, ex))
+            a = norm(i.start, z3.IntVal(0))
+            b = norm(i.stop, n)
+            b = z3.If(b < a, a, b)
+            self.e = z3.simplify(z3.Concat(z3.SubSeq(self.e, 0, a), z3.SubSeq(self.e, b, n - b)))
+            return
+        self.pop(i)
+
     def pop(self, i=-1):
         assert self.kind in ("list", "bytearray")
         ei = as_z3_int(i)
